@@ -218,7 +218,7 @@ theorem lookup_map_self {β} (f : Nat → β) : ∀ {ls : List Nat} {l : Nat}, l
   | [], _, h => by cases h
   | x :: xs, l, h => by
     by_cases hx : l = x
-    · subst hx; simp [List.lookup]
+    · subst hx; simp
     · have : (l == x) = false := by simpa using hx
       have hm : l ∈ xs := by
         cases h with
@@ -372,5 +372,166 @@ theorem ofH5_toH5 (b : Blob) (hinv : outInv b = true) :
       simp only [ofH5, hn, if_false, List.map_map, Function.comp_def, rows_maps,
         map_slot_blank slots hws]
       rw [hds]
+
+/-! ### CSV rows, column by column -/
+
+/-- the columns of one level, before level names are made readable -/
+def levelKeys (t : Tree) (l : Lvl) : List (Option (Lvl × ColKind)) :=
+  [some (l, .label), some (l, .name)]
+    ++ (if some l = t.leafLevel then [some (l, .alias)] else [])
+    ++ [some (l, .conf)]
+
+/-- the column keys of the CSV file (`none` = `cell_id`) -/
+def csvKeys (t : Tree) : List (Option (Lvl × ColKind)) :=
+  none :: t.hierarchy.flatMap (levelKeys t)
+
+/-- what a field must hold, given only its column key and the JSON record:
+the label is the assignment, name / alias are the table look-ups (defaulting
+to the label), the confidence is the number under the confidence key printed
+with `%.4f` -/
+def cellSpec (t : Tree) (taint : List Lvl) (ck : ConfKey) (r : Record) :
+    Option (Lvl × ColKind) → Cell
+  | none => .str r.cellId
+  | some (l, kind) =>
+    match r.levels.lookup l with
+    | none => .empty
+    | some lr =>
+      match kind with
+      | .label => .str lr.assignment
+      | .name => .str (t.labelToName l lr.assignment .name)
+      | .alias => .str (t.labelToName l lr.assignment .alias)
+      | .conf => confCell (taint.contains l) (lr.conf ck)
+
+theorem flatMap_congr' {α β} {f g : α → List β} : ∀ (ls : List α),
+    (∀ a ∈ ls, f a = g a) → ls.flatMap f = ls.flatMap g
+  | [], _ => rfl
+  | a :: as, h => by
+    simp only [List.flatMap_cons]
+    rw [h a (by simp), flatMap_congr' as (fun b hb => h b (by simp [hb]))]
+
+theorem csvColumns_eq (t : Tree) :
+    csvColumns t = (csvKeys t).map (Option.map (fun (l, k) => (t.levelToName l, k))) := by
+  simp only [csvColumns, csvKeys, List.map_cons, Option.map_none, List.map_flatMap]
+  congr 1
+  apply flatMap_congr'
+  intro l _
+  by_cases h : some l = t.leafLevel <;> simp [levelKeys, h]
+
+theorem csvLevelCells_eq (t : Tree) (taint : List Lvl) (ck : ConfKey) (r : Record) (l : Lvl)
+    (lr : LevelRec) (h : r.levels.lookup l = some lr) :
+    csvLevelCells t taint ck l lr = (levelKeys t l).map (cellSpec t taint ck r) := by
+  by_cases hl : some l = t.leafLevel <;> simp [csvLevelCells, levelKeys, cellSpec, h, hl]
+
+theorem csvLevels_eq (t : Tree) (taint : List Lvl) (ck : ConfKey) (r : Record) :
+    ∀ (ls : List Lvl), (∀ l ∈ ls, (r.levels.lookup l).isSome) →
+      csvLevels t taint ck r ls =
+        .ok ((ls.flatMap (levelKeys t)).map (cellSpec t taint ck r))
+  | [], _ => by simp [csvLevels]
+  | l :: ls, h => by
+    have ih := csvLevels_eq t taint ck r ls (fun l' hl' => h l' (by simp [hl']))
+    cases hl : r.levels.lookup l with
+    | none => have := h l (by simp); simp [hl] at this
+    | some lr =>
+      simp [csvLevels, hl, ih, csvLevelCells_eq t taint ck r l lr hl]
+
+theorem csvRows_eq (t : Tree) (taint : List Lvl) (ck : ConfKey) :
+    ∀ (rs : List Record), (∀ r ∈ rs, ∀ l ∈ t.hierarchy, (r.levels.lookup l).isSome) →
+      csvRows t taint ck rs = .ok (rs.map (fun r => (csvKeys t).map (cellSpec t taint ck r)))
+  | [], _ => by simp [csvRows]
+  | r :: rs, h => by
+    have ih := csvRows_eq t taint ck rs (fun r' hr' => h r' (by simp [hr']))
+    have h1 := csvLevels_eq t taint ck r t.hierarchy (h r (by simp))
+    simp [csvRows, csvRow, h1, ih, csvKeys, cellSpec]
+
+/-! ### the embedded taxonomy -/
+
+theorem lookup_map_val {β γ} (f : Nat → β → γ) (l : Nat) :
+    ∀ (xs : List (Nat × β)),
+      (xs.map (fun kv => (kv.1, f kv.1 kv.2))).lookup l = (xs.lookup l).map (f l)
+  | [] => by simp
+  | (k, v) :: xs => by
+    by_cases h : l = k
+    · subst h; simp [List.lookup]
+    · have : (l == k) = false := by simpa using h
+      simp only [List.map_cons, List.lookup, this]
+      exact lookup_map_val f l xs
+
+/-- what `dropCells` does to the dict of one level -/
+def dropLevelCells (t : Tree) (l : Lvl) (m : List (NodeId × List Nat)) : List (NodeId × List Nat) :=
+  if some l = t.leafLevel then m.map (fun nv => (nv.1, [])) else m
+
+theorem dropCells_levels (t : Tree) :
+    t.dropCells.levels = t.levels.map (fun kv => (kv.1, dropLevelCells t kv.1 kv.2)) := by
+  simp only [Tree.dropCells, dropLevelCells]
+  apply List.map_congr_left
+  intro kv _
+  obtain ⟨k, v⟩ := kv
+  by_cases h : some k = t.leafLevel <;> simp [h]
+
+theorem dropCells_lookup (t : Tree) (l : Lvl) :
+    t.dropCells.levels.lookup l = (t.levels.lookup l).map (dropLevelCells t l) := by
+  rw [dropCells_levels]
+  exact lookup_map_val (dropLevelCells t) l t.levels
+
+theorem dropCells_nodesAt (t : Tree) (l : Lvl) : t.dropCells.nodesAt l = t.nodesAt l := by
+  simp only [Tree.nodesAt, dropCells_lookup, Option.map_map]
+  congr 1
+  funext m
+  by_cases h : some l = t.leafLevel <;> simp [dropLevelCells, h, Function.comp_def]
+
+/-! ### `re_order_blob` -/
+
+theorem lookupLast_some {c : StrId} : ∀ {rs : List Record} {r : Record},
+    lookupLast c rs = some r → r ∈ rs ∧ r.cellId = c
+  | [], r, h => by simp [lookupLast] at h
+  | x :: xs, r, h => by
+    simp only [lookupLast] at h
+    cases hx : lookupLast c xs with
+    | some y =>
+      rw [hx] at h
+      simp only [Option.some.injEq] at h
+      subst h
+      have := lookupLast_some hx
+      exact ⟨by simp [this.1], this.2⟩
+    | none =>
+      rw [hx] at h
+      by_cases hc : x.cellId = c
+      · simp [hc] at h; subst h; exact ⟨by simp, hc⟩
+      · simp [hc] at h
+
+theorem lookupLast_isSome {c : StrId} : ∀ {rs : List Record},
+    c ∈ rs.map (·.cellId) → (lookupLast c rs).isSome
+  | [], h => by simp at h
+  | x :: xs, h => by
+    simp only [lookupLast]
+    cases hx : lookupLast c xs with
+    | some y => simp
+    | none =>
+      by_cases hc : x.cellId = c
+      · simp [hc]
+      · have : c ∈ xs.map (·.cellId) := by
+          simp only [List.map_cons, List.mem_cons] at h
+          rcases h with h | h
+          · exact absurd h.symm hc
+          · exact h
+        have := lookupLast_isSome this
+        simp [hx] at this
+
+theorem reorder_ok (rs : List Record) : ∀ (order : List StrId),
+    (∀ c ∈ order, c ∈ rs.map (·.cellId)) →
+    ∃ rs', reorder rs order = .ok rs' ∧ rs'.map (·.cellId) = order ∧ ∀ r ∈ rs', r ∈ rs
+  | [], _ => ⟨[], by simp [reorder], by simp, by simp⟩
+  | c :: cs, h => by
+    obtain ⟨rs', h1, h2, h3⟩ := reorder_ok rs cs (fun c' hc' => h c' (by simp [hc']))
+    have hs := lookupLast_isSome (h c (by simp))
+    cases hl : lookupLast c rs with
+    | none => simp [hl] at hs
+    | some r =>
+      have := lookupLast_some hl
+      refine ⟨r :: rs', by simp [reorder, hl, h1], by simp [this.2, h2], ?_⟩
+      intro r' hr'
+      cases hr' with
+      | head => exact this.1
+      | tail _ h' => exact h3 r' h'
 
 end CTM.Output
